@@ -96,6 +96,10 @@ pub enum Served {
     ForkDuringScan { to: u64 },
     /// (recorded by the store tap, not by the node) the importer committed a batch ending with this block
     Stored { slot: u64, hash: String },
+    /// (recorded by the store tap) the importer reached its last step, the legacy block range roots
+    LegacyRangeStep,
+    /// (recorded by the store tap) `optimize()` returned: after the legacy step it ends the import
+    Optimized,
 }
 
 #[derive(Clone, Debug, PartialEq, Eq)]
